@@ -7,7 +7,7 @@
 From Hive.Base Require Import Prelude.
 From Hive.Model Require Import Types KernelBase SimOps States Step.
 From Hive.Gen Require Import Kernels.
-From Hive.Proofs Require Import Trip VehFrame Macro DispInv.
+From Hive.Proofs Require Import Trip VehFrame Macro DispInv Eligible.
 
 Theorem C17_enter_assigns : forall env vid rid route s s', enter_dispatch_trip env vid rid route s = Ok s' ->
   exists r, find rid (requests s) = Some r /\
@@ -41,6 +41,11 @@ Theorem C17_invariant_over_histories : forall env, (forall g, e_fence env g = tr
 Proof. exact disp_invariant. Qed.
 Theorem C17_initial_state : forall s, requests s = PM.empty _ -> Inv_disp s.
 Proof. exact Inv_disp_no_requests. Qed.
+(* the built-in dispatcher's request filter (closure regenerated from dispatcher.py) never offers a request that already records a vehicle *)
+Theorem C17_dispatcher_offers_only_unassigned_requests : forall fleet r vid, r_disp r = Some vid -> dispatcher_valid_request fleet r = false.
+Proof. exact assigned_request_never_offered. Qed.
+Print Assumptions C17_dispatcher_offers_only_unassigned_requests.
+
 Print Assumptions C17_invariant_over_histories. Print Assumptions C17_initial_state.
 Print Assumptions C17_enter_assigns. Print Assumptions C17_exit_unassigns.
 Print Assumptions C17_assign_unassign_kernels. Print Assumptions C17_out_of_energy_releases.
